@@ -112,6 +112,12 @@ pub fn bursts() -> Vec<Burst> {
         vec![(0, "OPER op oppw"), (3, "USER nu 0 * :r")],
         vec![(0, vec!["KILL bob :x"]), (3, vec!["NICK bob"])],
     ));
+    // a query that reads the state while a writer queues behind it (OPER holds the write lock
+    // across the password check, so both queue up and are released in order): everybody is answered
+    v.push(mk("oper-vs-who-vs-away", base_cfg(), 3, users3(), vec![], chan3.clone(), vec![(0, vec!["OPER op oppw"]), (1, vec!["WHO alice"]), (2, vec!["AWAY :tea"])]));
+    v.push(mk("oper-vs-whois-vs-nick", base_cfg(), 3, users3(), vec![], chan3.clone(), vec![(0, vec!["OPER op oppw"]), (1, vec!["WHOIS carol"]), (2, vec!["NICK caro"])]));
+    v.push(mk("oper-vs-names-vs-join", base_cfg(), 3, users3(), vec![], vec![(0, "JOIN #c"), (1, "JOIN #c")], vec![(0, vec!["OPER op oppw"]), (1, vec!["NAMES #c"]), (2, vec!["JOIN #c"])]));
+    v.push(mk("oper-vs-list-vs-topic", base_cfg(), 3, users3(), vec![], chan3.clone(), vec![(0, vec!["OPER op oppw"]), (1, vec!["LIST"]), (2, vec!["TOPIC #c :t"])]));
     v.push(mk("quit-vs-invite", base_cfg(), 3, users3(), vec![], vec![(0, "JOIN #c"), (1, "JOIN #c")], vec![(0, vec!["INVITE carol #c"]), (2, vec!["QUIT"])]));
     v
 }
